@@ -22,10 +22,20 @@ import (
 	"verif/engine/sym"
 )
 
-const (
-	verifDir = "/verif"
-	repoDir  = "/repo"
-)
+var verifDir = func() string {
+	if d := os.Getenv("VERIF_DIR"); d != "" {
+		return d
+	}
+	if exe, err := os.Executable(); err == nil {
+		root := filepath.Dir(filepath.Dir(exe))
+		if _, err := os.Stat(filepath.Join(root, "properties.jsonl")); err == nil {
+			return root
+		}
+	}
+	return "/verif"
+}()
+
+const repoDir = "/repo"
 
 // HSpec describes one gossa harness.
 type HSpec struct {
@@ -274,7 +284,7 @@ func (rc *runCtx) selected() []*group {
 		if h.Tier != "" && h.Tier != rc.tier {
 			continue
 		}
-		if rc.only != "" && !strings.Contains(h.Func, rc.only) {
+		if rc.only != "" && !strings.Contains(h.Func+h.Label, rc.only) {
 			continue
 		}
 		key := fmt.Sprintf("%s|%s|%d", h.Pkg, h.Dir, h.BigW)
